@@ -41,7 +41,7 @@ def run(tier, seed, replay=None):
             for k, v in r["cov"].items():
                 cov[k] = cov.get(k, 0) + v
         ck.extra["coverage_directed_generation_near_miss_bound_rows"] = cov
-    vs = ck.validate(DIR, "MilpTrace", trs, "solve_milp under 14 option settings per instance", timeout=3000)
+    vs = ck.validate(DIR, "MilpTrace", trs, "solve_milp under 22-24 option settings per instance", timeout=3000)
     ck.classify(trs, vs, nontrivial=lambda t, v: t["n"] >= 1)
     for t in trs:
         for e in t["events"]:
@@ -111,7 +111,7 @@ def run(tier, seed, replay=None):
     for exp, k in stepfired.items():
         ck.control(f"corrupted branch-and-bound event flagged by the Bnb action guard {exp}* ({k} variants)", k > 0, str(cv)[:400])
     ck.rule = ("random bounded MILPs with integer data: 1-3 variables (at most one continuous), bounds 1..4 (40% binaries, with and without "
-               "explicit x<=1 rows in shuffled order), knapsack-, cover- and mixed-sign rows; per instance 14 calls: minimize/maximize x "
+               "explicit x<=1 rows in shuffled order), knapsack-, cover- and mixed-sign rows; per instance 22-24 calls: minimize/maximize x "
                "{default, heuristics off, feasible-looking / fractional / wrong-length / negative-on-the-continuous-variable warm start, lns_iterations=3, solution_limit=3}; "
                "non-trivial = every instance; distinct by hash")
     ck.assumptions = ["every variable carries an explicit upper bound row (finite integer part)", "max_nodes / max_iter at their defaults"]
